@@ -12,6 +12,8 @@
  *                               (16x16 matrix over GF(2), repeated squaring)
  *   h_crc first K SEED          what the very first call of a process does must not matter: first call with K bytes (K = 0..3 and
  *                               a few larger), then random buffers whole / split vs reference in the same process
+ *   h_crc alias SEED N          the 16-bit accumulator lies INSIDE the buffer it is asked to checksum (a record with its own CRC field,
+ *                               the residue check crc(&c, &c, 2)): expected = CRC of the buffer as it was when the call was made
  *   h_crc huge SEED LEN         one buffer of LEN bytes (LEN may exceed 2^32), whole and 2-split, vs reference
  * Prints "MISMATCH ..." lines (at most 20) and one "SUMMARY ..." line.
  */
@@ -171,6 +173,24 @@ int main(int argc, char **argv)
 			++cases; ++splits;
 		}
 		free(arena);
+	} else if (!strcmp(argv[1], "alias")) {
+		unsigned long n = strtoul(argv[3], NULL, 10), k;
+		uint16_t store[40];                 /* 80 bytes, 2-byte aligned */
+		uint8_t snap[80];
+		sm_state = strtoull(argv[2], NULL, 10);
+		for (k = 0; k < n; ++k) {
+			size_t len = 2 + (size_t) (sm() % 78), slot, i; uint16_t init, want;
+			for (i = 0; i < 40; ++i) store[i] = (uint16_t) sm();
+			len &= ~(size_t) 0;              /* any length 2..79 */
+			slot = (size_t) (sm() % (len / 2));          /* the accumulator is 16-bit word number `slot` of the buffer */
+			if (k % 3 == 0) store[slot] = 0;                 /* the usual record layout: CRC field zeroed before the call */
+			memcpy(snap, store, sizeof snap);
+			init = store[slot];
+			want = ref_buf(init, snap, len);
+			lha_crc16_buf(&store[slot], (uint8_t *) store, len);
+			if (store[slot] != want) report("accumulator-inside-buffer", init, snap, len, slot * 2, store[slot], want);
+			++cases;
+		}
 	} else if (!strcmp(argv[1], "zeros")) {
 		/* M[i] = image of basis vector i under "feed one zero byte" */
 		uint16_t M[16], P[16], R[16]; int i, j; unsigned long long n = strtoull(argv[3], NULL, 10), e;
